@@ -1348,6 +1348,13 @@ def _run_rdf(case, ctx, rng):
         kmax = 4
     kb = int(rng.integers(1, min(kmax, 300) + 1))
     r1 = r0 + kb * bw
+    # a range that is NOT a whole number of bin_widths (what (0, 1) with 0.03 gives): the labels r, the bins counted into and the
+    # shell volumes must still describe the same bins
+    if kb < kmax and rng.random() < 0.25:
+        r1 = r0 + (kb + float(rng.choice([0.3, 0.5, 0.7]))) * bw
+        ctx.observe("rdf.range-vs-bin_width", "not a multiple")
+    else:
+        ctx.observe("rdf.range-vs-bin_width", "multiple")
     binmode = ["default", "bin_width", "n_bins", "both"][int(rng.integers(4))]
     kw = dict(periodic=periodic, opt=opt)
     if binmode == "default":
@@ -1413,7 +1420,15 @@ def _run_rdf(case, ctx, rng):
         if n == 0:
             return None
         edges = F.rdf_edges(r0, r1, n)
-        ctx.check(bool(np.all(np.abs(r - 0.5 * (edges[1:] + edges[:-1])) <= 1e-9 * max(r1, 1.0))), name,
+        centred = bool(np.all(np.abs(r - 0.5 * (edges[1:] + edges[:-1])) <= 1e-9 * max(r1, 1.0)))
+        if not centred and nb_arg is None and abs((r1 - r0) / bw - round((r1 - r0) / bw)) > 1e-9 * max(round((r1 - r0) / bw), 1):
+            # range not a multiple of bin_width: the other reading (bins of exactly bin_width starting at r_range[0]) is accepted for
+            # the labels; g is then judged on THOSE bins, so labels that describe other bins than the ones counted still show
+            alt = r0 + bw * np.arange(n + 1)
+            if bool(np.all(np.abs(r - 0.5 * (alt[1:] + alt[:-1])) <= 1e-9 * max(r1, 1.0))):
+                ctx.observe("rdf.bins-convention", "bin_width kept, range truncated")
+                return alt
+        ctx.check(centred, name,
                   "rdf:r-is-not-bin-centres", "returned r are not the centres of n equal bins spanning r_range")
         return edges
 
